@@ -6,14 +6,23 @@
    class_proved2 n w oc = true: the class of the result, and every class it can embed, only uses
      property kinds   leaf_proved (Proofs/SchemaProved.v) + KId, KRef, KHashes (hash_names_ok), KFloat,
                       KMarking, KExtensions (every registered extension class of the version covered),
+                      KObservable (every registered observable class covered and writing its own `type`),
                       lists and embedded objects of covered kinds / classes;
-     co-constraints   constr_proved + CRaiseIf, CWhen (conditions: truthiness of non-object properties,
-                      presence, is True / is not False, timestamps compared as instants, and / or / not),
-                      CLegalHashes, CSocketOptions (repaired variant vr_sock_int);
-     __init__ forms   init_proved (unchanged).
-   and CPatternValidator (2.1: pattern_type a required string property), KObservable (every registered
-   observable class covered and writing its own `type`).
-   Not covered (yet): KStixObject (Bundle), IMarkingDefinition / CTlp (MarkingDefinition).
+     co-constraints   constr_proved + CRaiseIf, CWhen (conditions: truthiness of non-object properties
+                      and of wrapped marking objects, presence, is True / is not False, timestamps
+                      compared as instants, and / or / not), CLegalHashes, CSocketOptions (repaired
+                      variant vr_sock_int), CPatternValidator (2.1: pattern_type a required string
+                      property), CTlp;
+     __init__ forms   init_proved + v21 MarkingDefinition.__init__ (IMarkingDefinition V21: every
+                      registered marking class covered, never empty, `tlp` never elided).
+   NOT covered, and why:
+     2.0/MarkingDefinition   IMarkingDefinition V20 switches the precision of `created` per instance and
+                             emits a `created` without milliseconds: known finding
+                             C02-v20-marking-definition-created-without-milliseconds (the frozen
+                             specification refuses the output; only the relaxed one accepts it);
+     2.0/Bundle, 2.1/Bundle  KStixObject: a bundle member may be a 2.0 marking-definition (the version of
+                             a member is detected per member), so no bundle can be covered while the
+                             class above is not.
    lib_covered2 lists the classes of the generated tables for which class_proved2 holds; it is
    recomputed by the kernel on every build (coverage_counts = (|lib_covered2|, |lib_covered|, all)).   *)
 From Coq Require Import NArith ZArith List String Bool.
